@@ -41,7 +41,7 @@ def mandatory_bins(tier):
     b += ["key_trailing_zero_%d" % z for z in (1, 2, 3, 15)]
     b += ["crc_lo_00:cust", "crc_hi_00:cust", "crc_both_00:cust", "crc_lo_00:update", "crc_hi_00:update", "crc_both_00:update",
           "decryptors_all", "decryptors_single", "decryptors_partial", "pass_through_block", "encrypted_config_component", "customer_key_present", "customer_key_absent",
-          "version_00", "version_ff", "version_80", "code_all_zero", "code_ends_00", "config_blob_trailing_zero_padding", "key_all_zero", "ecc_distractor_decryptors_before_the_matching_one", "ecc_distractor_encryptors_on_write", "second_write_after_replacing_a_block_of_the_same_kind", "foreign_blocks_of_unknown_kind"]
+          "version_00", "version_ff", "version_80", "code_all_zero", "code_ends_00", "config_blob_trailing_zero_padding", "key_all_zero", "ecc_distractor_decryptors_before_the_matching_one", "ecc_distractor_encryptors_on_write", "second_write_after_replacing_a_block_of_the_same_kind", "foreign_blocks_of_unknown_kind", "session_key_contains_customer_key"]
     return b
 
 
@@ -225,7 +225,18 @@ def run_shard(spec, ctx):
         mode = (idx // len(lists)) % 9
         aes = [s for s in specs if s["kind"] in ("cust", "update")]
         key = rng.randbytes(16)
-        if mode in (0, 1, 2) and aes:
+        withck = [s for s in specs if s["kind"] == "cust" and s["ck"] is not None]
+        if withck and idx % 5 == 1:
+            # the wrapped payload is customer key || session key: a session key that itself contains the customer-key bytes
+            s = withck[0]
+            if rng.random() < 0.3:
+                s["ck"] = bytes([rng.randrange(1, 256)]) * 10
+                key = s["ck"][:1] * 16
+            else:
+                off = rng.randrange(0, 7)
+                key = key[:off] + s["ck"] + key[off + 10:]
+            ctx.bin("session_key_contains_customer_key")
+        elif mode in (0, 1, 2) and aes:
             want = ("lo", "hi", "both")[mode]
             s = aes[(idx // 7) % len(aes)]
             key = solve_key(rng, s, want)
